@@ -515,13 +515,17 @@ def gen_sq_record(rng):
             "kind": kind, "AS": AS, "A": A}
 
 
-def observe(rec, variant=0):
-    """Runs the real code on a record, adds the integer-projected observation; -> context with the frames."""
+def observe(rec, variant=0, shared=None):
+    """Runs the real code on a record, adds the integer-projected observation; -> context with the frames.
+    shared: objects of a multi-call session (snapshot, condition array, wave vectors) used instead of fresh ones."""
     ctx = {}
     try:
-        cond, ctype = make_condition(rec, variant)
+        if shared:
+            cond, ctype = shared["cond"], shared["ctype"]
+        else:
+            cond, ctype = make_condition(rec, variant)
         if rec["op"] == "gr":
-            snap = gr_snapshot(rec)
+            snap = shared["snap"] if shared else gr_snapshot(rec)
             df = call_gr(snap, cond, ctype, rec["ppp"], rec["wn"] / rec["S"])
             r = df["r"].values.astype(float) * 2 * rec["S"] if "r" in df.columns else np.zeros(len(df))
             r2 = [int(round(x)) for x in r]
@@ -529,9 +533,12 @@ def observe(rec, variant=0):
                           "r_ok": int(all(abs(a - b) <= 1e-9 * (1 + abs(b)) for a, b in zip(r, r2)))}
             ctx["df"] = df
         else:
-            snap, L = sq_snapshot(rec)
-            qv = np.array(rec["sel"]["vecs"], dtype=int)
-            res, ave = call_sq(snap, qv.copy(), cond)
+            if shared:
+                snap, L, qv = shared["snap"], shared["L"], shared["qv"]
+            else:
+                snap, L = sq_snapshot(rec)
+                qv = np.array(rec["sel"]["vecs"], dtype=int)
+            res, ave = call_sq(snap, qv, cond)
             d = len(L)
             names = [f"q{k}" for k in range(d)]
             if all(n in res.columns for n in names):
@@ -542,7 +549,7 @@ def observe(rec, variant=0):
             rec["obs"] = {"rows": len(res), "ncols": len(res.columns), "groups": len(ave), "nq": nq.tolist(),
                           "nq_ok": int(bool(np.all(np.abs(nqf - nq) <= 1e-6))),
                           "fft": sum(1 for c in res.columns if str(c).startswith("FFT"))}
-            ctx.update(res=res, ave=ave, qvector=qv)
+            ctx.update(res=res, ave=ave, qvector=np.array(rec["sel"]["vecs"], dtype=int))
     except LibraryRaised as e:
         ctx["raises"] = e.clause[len("raises:"):] + ": " + str(e)
         if rec["op"] == "gr":
@@ -550,6 +557,67 @@ def observe(rec, variant=0):
         else:
             rec["obs"] = {"rows": -1, "ncols": 0, "groups": 0, "nq": [], "nq_ok": 0, "fft": 0}
     return ctx
+
+
+def _digest(*arrays):
+    import hashlib
+    h = hashlib.sha1()
+    for a in arrays:
+        a = np.ascontiguousarray(a)
+        h.update(str(a.dtype).encode() + str(a.shape).encode() + a.tobytes())
+    return h.hexdigest()
+
+
+def gen_session(rng, sid):
+    """A multi-call session: one snapshot object, two condition arrays and one wave-vector array shared by a sequence of
+    conditional_gr / conditional_sq calls (with repetitions).  The same configuration is described to the spec in the
+    g(r) form (scale M S) and in the S(q) form (grid coordinates)."""
+    d = rng.choice([2, 3])
+    S, M = 2, rng.choice([3, 4, 5, 6, 8, 10])
+    L = [rng.randint(10, 30) for _ in range(d)]
+    K = rng.randint(1, 3)
+    N = rng.randint(max(K, 4), 14)
+    types = list(range(1, K + 1)) + [rng.randint(1, K) for _ in range(N - K)]
+    rng.shuffle(types)
+    pos = [[rng.randint(-M, 2 * M) for _ in range(d)] for _ in range(N)]
+    lmin = min(L) * M
+    wn = rng.randint(max(1, lmin // 20), max(2, lmin // 4))
+    while lmin % (2 * wn) == 0:
+        wn += 1
+    ppp = [1] * d if rng.random() < 0.7 else [rng.randint(0, 1) for _ in range(d)]
+    ggeom = {"H": [[L[i] * M if i == j else 0 for j in range(d)] for i in range(d)], "ppp": ppp, "S": M * S, "types": types,
+             "pos": [[p[k] * L[k] for k in range(d)] for p in pos], "wn": wn, "sharp": 0}
+    vs = set()
+    while len(vs) < 5:
+        v = tuple(rng.randint(-2, 2) for _ in range(d))
+        if any(v):
+            vs.add(v)
+    sgeom = {"L": L, "S": S, "M": M, "types": types, "pos": pos, "sel": {"kind": "list", "vecs": [list(v) for v in sorted(vs)]}}
+    fields = [gen_values(rng, N, ["bool", "float", "complex", "svector", "scvector"], d) for _ in range(2)]
+    snap, Lr = sq_snapshot(sgeom)
+    qv = np.array(sgeom["sel"]["vecs"], dtype=int)
+    conds = [make_condition({"kind": k, "AS": a, "A": A}, 0) for (k, a, A) in fields]
+    plan = [("gr", 0), ("sq", 0), ("gr", 1), ("gr", 0), ("sq", 1), ("sq", 0), ("gr", 1)]
+    rng.shuffle(plan)
+    plan = plan[:rng.randint(4, 7)]
+
+    def inputs():
+        return _digest(snap.positions, snap.particle_type, snap.hmatrix, snap.boxlength, snap.boxbounds, qv, conds[0][0], conds[1][0])
+    d0 = inputs()
+    seen = {}
+    recs, ctxs = [], []
+    for op, fi in plan:
+        kind, AS, A = fields[fi]
+        rec = dict(ggeom if op == "gr" else sgeom, op=op, kind=kind, AS=AS, A=A)
+        ctx = observe(rec, shared={"snap": snap, "L": Lr, "qv": qv, "cond": conds[fi][0], "ctype": conds[fi][1]})
+        if op == "gr":
+            dg = _digest(ctx["df"].to_numpy(dtype=float)) + ",".join(ctx["df"].columns) if "df" in ctx else "raised"
+        else:
+            dg = (_digest(ctx["res"].to_numpy(dtype=complex), ctx["ave"].to_numpy(dtype=float)) + ",".join(ctx["res"].columns)) if "res" in ctx else "raised"
+        rec.update(ses=sid, key=(0 if op == "gr" else 2) + fi, dig=seen.setdefault(dg, len(seen)), sd=0 if inputs() == d0 else 1)
+        recs.append(rec)
+        ctxs.append(ctx)
+    return recs, ctxs
 
 
 def validate_records(records, timeout=1800):
@@ -613,10 +681,13 @@ def validate_chunk(args):
     return out, tlcs
 
 
-def check_trace(chk, recs, ctxs, stats, nchunks=8):
-    n = len(recs)
+def check_trace(chk, recs, ctxs, stats, nchunks=8, keep_together=0):
+    """keep_together: the last that many records are sessions (history in the trace spec): one chunk of their own."""
+    n = len(recs) - keep_together
     size = max(1, math.ceil(n / nchunks))
     chunks = [(i, recs[i:i + size]) for i in range(0, n, size)]
+    if keep_together:
+        chunks.append((n, recs[n:]))
     with cf.ThreadPoolExecutor(max_workers=min(common.JOBS, len(chunks))) as ex:
         parts = list(ex.map(validate_chunk, chunks))
     accepted = []
@@ -660,6 +731,25 @@ def corrupt_one_field(chk, recs):
     if rej is None or rej[0] != 1 or rej[1] != "Rows":
         raise MachineryError(f"corrupted trace record was not rejected at that record (got {rej})")
     chk.extra["corrupt_one_field_rejected"] = True
+
+
+def corrupt_session(chk, recs):
+    """The same for the history part: the result digest of a REPEATED call of an accepted session is changed; the trace spec
+    must reject that record with clause RepeatedCallDiffers (its memo carries the earlier result)."""
+    seen = set()
+    for j, rec in enumerate(recs):
+        k = (rec["ses"], rec["key"])
+        if k in seen:
+            first = next(i for i, r in enumerate(recs) if r["ses"] == rec["ses"])
+            bad = json.loads(json.dumps(recs[first:j + 1]))
+            bad[-1]["dig"] += 7
+            r, rej, _ = validate_records(bad)
+            chk.add_tlc(r, "TraceConditional corrupt-session")
+            if rej is None or rej[0] != len(bad) - 1 or rej[1] != "RepeatedCallDiffers":
+                raise MachineryError(f"corrupted session record was not rejected at that record (got {rej})")
+            chk.extra["corrupt_session_rejected"] = True
+            return
+        seen.add(k)
 
 
 # --------------------------------------------------------------------------
@@ -719,10 +809,10 @@ def run(tier, replay=None):
         return chk.finish()
 
     # ---- direction A: model checking + emission + replay
-    samp = 12 if tier == "quick" else 3
+    samp = 6 if tier == "quick" else 8
     g = run_tlc_sharded("MC_Conditional",
                         dict(constants={"Tier": tier, "Fam": "all", "SEED": common.SEED, "SAMPLE": samp, "SALT": common.SEED},
-                             invariants=INVS + ["Emit"]), coverage=False)
+                             invariants=INVS + ["Emit"]), nshards=(8 if tier == "quick" else None))
     require_model_ok(g, "MC_Conditional")
     chk.add_tlc(g, "MC_Conditional (gl, gh, sg, sh)")
     if not g.cases:
@@ -750,6 +840,15 @@ def run(tier, replay=None):
         rec = gen_gr_record(rng) if i % 2 == 0 else gen_sq_record(rng)
         ctxs.append(observe(rec))
         recs.append(rec)
-    accepted = check_trace(chk, recs, ctxs, stats, nchunks=8 if tier == "quick" else 16)
-    corrupt_one_field(chk, [recs[i] for i in accepted if recs[i]["op"] == "gr"])
+    nses = 0
+    for sid in range(6 if tier == "quick" else 60):       # multi-call sessions on shared objects
+        r2, c2 = gen_session(rng, sid + 1)
+        recs += r2
+        ctxs += c2
+        nses += len(r2)
+    stats["session_calls"] = nses
+    accepted = check_trace(chk, recs, ctxs, stats, nchunks=4 if tier == "quick" else 15, keep_together=nses)
+    corrupt_one_field(chk, [recs[i] for i in accepted if recs[i]["op"] == "gr" and "ses" not in recs[i]])
+    if all(i in set(accepted) for i in range(len(recs) - nses, len(recs))):
+        corrupt_session(chk, recs[len(recs) - nses:])
     return chk.finish()
